@@ -12,6 +12,6 @@ echo "== demo without the change (must pass)"
 git diff > /tmp/tryseed_$id.diff && git apply -R /tmp/tryseed_$id.diff && go test -vet=off -count=1 -run '^TestSeededDemo$' . 2>&1 | tail -1; git apply /tmp/tryseed_$id.diff
 echo "== check $id $tier against the changed tree"
 cd /verif && mv $wt/zz_seeded_demo_test.go /tmp/demo_$id.go.keep
-GOSYM_REPO=$wt VERIF_EVIDENCE_SKIP=1 ./check $id $tier 2>&1 | grep -v "^  inputs\|^  native" | tail -12
+GOSYM_REPO=$wt ./check $id $tier 2>&1 | grep -v "^  inputs\|^  native" | tail -12
 echo "exit=$?"
 mv /tmp/demo_$id.go.keep $wt/zz_seeded_demo_test.go
